@@ -128,6 +128,36 @@ CHECKS['C03'] = dict(
          'the generated workbooks is the one XL.Model.Eval covers.',
     technique='Lean 4 proof of a hand-written workbook model + differential correspondence check')
 
+CHECKS['C07'] = dict(
+    text=('Lean 4 theorems (XL.Props.C07) on the workbook model: override_is_constant (an overridden cell holds the '
+          'supplied value, its formula is not evaluated), dependents_recomputed (with an override the calculated values '
+          'satisfy the equations in which the overridden address is that constant; overriding preserves acyclicity), '
+          'independent_unchanged (cells that do not reach the overridden address keep their values), '
+          'range_override_cell (a value supplied through a range is distributed to its cells). The model is a pure '
+          'function of (workbook, inputs), so history independence holds of it by construction; the check supplies '
+          'override sets over constants, formula cells, blanks, multi-cell ranges and reference-valued names to a live '
+          'ExcelModel after random histories of calculate/compile/to_dict/write/deepcopy, to a freshly built model and '
+          'to the Lean model, and compares every cell; restricted output lists must return the same values.'),
+    design='DESIGN.md §3 C07',
+    note=COMMON_NOTE + 'The history-independence half of the property is about mutable state of the Python objects: it is '
+         'observed (live vs fresh model), not proved. Known finding range-override-unlisted-blank (from_dict models only).',
+    technique='Lean 4 proof on the workbook model + differential correspondence (live model after history vs fresh model vs Lean model)')
+
+CHECKS['C08'] = dict(
+    text=('Lean 4 theorems (XL.Props.C08): compile_sound — evaluating with a table of frozen pre-evaluated values, whose '
+          'entries are cells independent of the inputs, equals the full calculation with the arguments as inputs, for '
+          'EVERY argument tuple (no hypothesis on the arguments: branch, error and shape changes included); '
+          'independent_of_arguments; compileFormula_sound — a compiled formula equals the same formula with the argument '
+          'values written in as literals (substitution lemma over the whole expression type); compileFormula_inputs. '
+          'The check compares ExcelModel.compile(ins, outs)(*args) with calculate(inputs=...) and with the Lean model on '
+          'random workbooks, node lists and argument tuples of every kind, and compiled single formulas with their '
+          'literal-substituted form.'),
+    design='DESIGN.md §3 C08',
+    note=COMMON_NOTE + 'schedula shrink_dsp / get_sub_dsp_from_workflow / DispatchPipe are external: the model states what '
+         'freezing must satisfy (entries independent of the inputs) and the correspondence checks the implementation '
+         'against calculate() and the model. Volatile cells are the subject of C13.',
+    technique='Lean 4 proof (freezing lemma, substitution lemma) + differential correspondence')
+
 NOT_YET = {
 }
 
